@@ -347,7 +347,13 @@ pub fn process<I: BufRead, O: Write>(
                     _ => break,
                 }
             } else {
-                let mut s = remaining.split("//").next().unwrap().splitn(2, "/*");
+                // A "//" only starts a line comment if no block comment starts before it
+                let code = match (remaining.find("//"), remaining.find("/*")) {
+                    (Some(l), Some(b)) if b < l => remaining,
+                    (Some(l), _) => &remaining[..l],
+                    _ => remaining,
+                };
+                let mut s = code.splitn(2, "/*");
                 // Is there a string start before that point ?
                 let s2 = s.next().unwrap();
                 if !s2.starts_with("#include") && !asm {
